@@ -107,7 +107,7 @@ func (ym *YamlMap) setValue(item *YamlKeyValue) {
 		if ym.Items[i].Key.Value == item.Key.Value {
 			// Items holds pointers that can be shared with the map this one was cloned from
 			// (MergeMaps), replace the element instead of writing through the shared pointer.
-			ym.Items[i] = &YamlKeyValue{Key: ym.Items[i].Key, Value: item.Value}
+			ym.Items[i] = &YamlKeyValue{Key: item.Key, Value: item.Value}
 			return
 		}
 	}
